@@ -1,3 +1,19 @@
-import Chiritori.Spec.Holds
+import Chiritori.Props.C02
+/-
+  C03 — No under-removal: proved together with C02 (Props/C02.lean, theorem `c02_c03`).
+  Here: the statement in C03's own words, as a corollary.
+-/
 namespace Chiritori.Props.C03
+open Chiritori Chiritori.Spec
+
+/-- every byte of the source whose index lies in a ready extent is deleted by `remove`, and nothing else is:
+    the text before whitespace tidying is the source minus the ready extents -/
+theorem removed_is_source_minus_extents (src ds de : List Char) (cfg : Cfg) (hde : de ≠ []) (removed : Bytes)
+    (h : removeMarkers (bytesOf src) (buildRemoveMarker cfg (bytesOf src) (parseSource src ds de)) = .ok removed) :
+    removed = minusRanges (bytesOf src) (extentsOfSource src ds de cfg) :=
+  C02.removed_eq src ds de cfg hde removed h
+
+def Statement : Prop := C02.Statement
+theorem c03 : Statement := C02.c02_c03
+
 end Chiritori.Props.C03
